@@ -40,13 +40,25 @@ class Threshold:
         return "Threshold(%r,%r,%r)" % (self.table, self.op, self.default)
 
 
+def key_of(arm):
+    """Text under which a label is looked up: the label itself for text labels, the repr of its value as a float for
+    numbers (1, 1.0 and numpy's 1.0 are one label - which of them reaches a binarizer depends on how the batch was
+    converted, which the library does not promise).  Anything else (a whole array) has a text no table contains."""
+    if isinstance(arm, str):
+        return str(arm)
+    try:
+        return repr(float(arm))
+    except (TypeError, ValueError):
+        return str(arm)
+
+
 class StrKey:
     def __init__(self, table, default):
         self.table = {str(k): t for k, t in table}
         self.default = default
 
     def __call__(self, arm, reward):
-        return (reward >= self.table.get(str(arm), self.default)) * 1
+        return (reward >= self.table.get(key_of(arm), self.default)) * 1
 
     def __eq__(self, other):
         return isinstance(other, StrKey) and (self.table, self.default) == (other.table, other.default)
